@@ -4,6 +4,7 @@ package main
 
 import (
 	"fmt"
+	"go/constant"
 	"go/token"
 	"go/types"
 	"sort"
@@ -113,55 +114,50 @@ func c20Families(r *Run) []c20Family {
 				}
 			}
 			// families built by a repository helper that returns a FamilyGenerator literal: the name and the
-			// generator are read off the helper's literal, seen with the arguments of this call
+			// generator are read off the helper's literal, seen with the arguments of this call; when an
+			// argument is the current element of a package-level table of struct literals, one family per entry
 			for _, ci := range callsIn(list) {
 				call, isCall := ci.(*ssa.Call)
 				if !isCall || typeName(call.Type()) != c20PkgKSGen+".FamilyGenerator" {
 					continue
 				}
 				fpos := r.Prog.Pos(call.Pos())
-				F := newFrames(r.Prog)
-				H, hfr := F.callFrame(call, nil)
-				if H == nil || !r.Prog.IsRuleSite(H) {
+				H := staticCallee(&call.Call)
+				if H == nil || !r.Prog.IsRuleSite(H) || len(H.Blocks) == 0 || len(H.Params) != len(call.Call.Args) {
 					r.Undecided("C20.R1", "family built by a helper", fpos, shortFunc(list), "the FamilyGenerator comes from "+calleeName(&call.Call))
 					continue
 				}
-				var lit ssa.Value
-				if rv := singleReturn(H, 0); rv != nil {
-					if u, isL := rv.(*ssa.UnOp); isL && u.Op == token.MUL {
-						lit = u.X
-					}
-				}
-				if lit == nil {
-					r.Undecided("C20.R1", "family built by "+H.Name(), fpos, shortFunc(list), "the helper does not return one FamilyGenerator literal")
-					continue
-				}
-				ns, gfs := fieldStores(lit, "Name"), fieldStores(lit, "GenerateFunc")
-				name, isC := "", false
-				if len(ns) == 1 {
-					name, isC = constString(F.resolve(fval{ns[0], hfr}).v)
-				}
-				var gen *ssa.Function
-				var gfr *frame
-				if len(gfs) == 1 {
-					switch gv := gfs[0].(type) {
-					case *ssa.Function:
-						gen, gfr = gv, F.top(gv)
-					case *ssa.MakeClosure:
-						gen, _ = gv.Fn.(*ssa.Function)
-						if gen != nil {
-							gfr = F.top(gen)
-							for _, bnd := range gv.Bindings {
-								gfr.free = append(gfr.free, fval{bnd, hfr})
-							}
+				// argument sets: one, or one per table entry
+				argSets := [][]fval{nil}
+				for _, a := range call.Call.Args {
+					entries, isTable := c20TableEntries(a)
+					var next [][]fval
+					for _, set := range argSets {
+						if !isTable {
+							next = append(next, append(append([]fval{}, set...), fval{v: a}))
+							continue
+						}
+						for _, e := range entries {
+							next = append(next, append(append([]fval{}, set...), fval{v: e, deref: true}))
 						}
 					}
+					argSets = next
 				}
-				if !isC || gen == nil || len(gen.Params) != 1 {
-					r.Undecided("C20.R1", "family built by "+H.Name(), fpos, shortFunc(list), "name is not a constant at this call or GenerateFunc is not a function literal")
-					continue
+				if len(argSets) == 0 {
+					r.Undecided("C20.R1", "family built by "+H.Name(), fpos, shortFunc(list), "the table the families are built from has no entries")
 				}
-				out = append(out, c20Family{name: name, gen: gen, list: list, kind: kind, pos: call.Pos(), F: F, fr: gfr})
+				for _, set := range argSets {
+					F := newFrames(r.Prog)
+					hfr := F.top(H)
+					hfr.args = set
+					fam, why := c20FamilyFromHelper(F, H, hfr)
+					if fam == nil {
+						r.Undecided("C20.R1", "family built by "+H.Name(), fpos, shortFunc(list), why)
+						continue
+					}
+					fam.list, fam.kind, fam.pos = list, kind, call.Pos()
+					out = append(out, *fam)
+				}
 			}
 		}
 	}
@@ -169,6 +165,112 @@ func c20Families(r *Run) []c20Family {
 		r.Check("C20.R1", "registration", "-", "-", "a call of metrics.AddMetrics in the repository", false, "none found")
 	}
 	return out
+}
+
+// c20FamilyFromHelper reads the FamilyGenerator literal a helper returns, in the helper's frame.
+func c20FamilyFromHelper(F *frames, H *ssa.Function, hfr *frame) (*c20Family, string) {
+	var lit ssa.Value
+	if rv := singleReturn(H, 0); rv != nil {
+		if u, isL := rv.(*ssa.UnOp); isL && u.Op == token.MUL {
+			lit = u.X
+		}
+	}
+	if lit == nil {
+		return nil, "the helper does not return one FamilyGenerator literal"
+	}
+	ns, gfs := fieldStores(lit, "Name"), fieldStores(lit, "GenerateFunc")
+	name, isC := "", false
+	if len(ns) == 1 {
+		name, isC = constString(F.resolve(fval{v: ns[0], fr: hfr}).v)
+	}
+	var gen *ssa.Function
+	var gfr *frame
+	if len(gfs) == 1 {
+		switch gv := gfs[0].(type) {
+		case *ssa.Function:
+			gen, gfr = gv, F.top(gv)
+		case *ssa.MakeClosure:
+			gen, _ = gv.Fn.(*ssa.Function)
+			if gen != nil {
+				gfr = F.top(gen)
+				for _, bnd := range gv.Bindings {
+					gfr.free = append(gfr.free, fval{v: bnd, fr: hfr})
+				}
+			}
+		}
+	}
+	if !isC || gen == nil || len(gen.Params) != 1 {
+		return nil, "name is not a constant at this call or GenerateFunc is not a function literal"
+	}
+	return &c20Family{name: name, gen: gen, F: F, fr: gfr}, ""
+}
+
+// c20TableEntries: v is the current element of a loop over a package-level slice of struct literals
+// (`for _, e := range table`, e or table[i]); returns the addresses of the entries as initialised by
+// the package initialiser.
+func c20TableEntries(v ssa.Value) ([]ssa.Value, bool) {
+	var ia *ssa.IndexAddr
+	if u, ok := v.(*ssa.UnOp); ok && u.Op == token.MUL {
+		switch x := u.X.(type) {
+		case *ssa.IndexAddr:
+			ia = x
+		case *ssa.Alloc:
+			if st, ro := readOnlyCopy(x); ro {
+				if l, isL := st.Val.(*ssa.UnOp); isL && l.Op == token.MUL {
+					ia, _ = l.X.(*ssa.IndexAddr)
+				}
+			}
+		}
+	}
+	if ia == nil {
+		return nil, false
+	}
+	sl, ok := ia.X.(*ssa.UnOp)
+	if !ok || sl.Op != token.MUL {
+		return nil, false
+	}
+	g, ok := sl.X.(*ssa.Global)
+	if !ok || g.Pkg == nil {
+		return nil, false
+	}
+	// the table is written exactly once, by the package initialiser, with a slice literal
+	var lit *ssa.Alloc
+	nStores := 0
+	for _, mem := range g.Pkg.Members {
+		fn, isFn := mem.(*ssa.Function)
+		if !isFn {
+			continue
+		}
+		fns := append([]*ssa.Function{fn}, fn.AnonFuncs...)
+		for _, f := range fns {
+			for _, b := range f.Blocks {
+				for _, in := range b.Instrs {
+					if st, isSt := in.(*ssa.Store); isSt && st.Addr == ssa.Value(g) {
+						nStores++
+						if f.Name() == "init" {
+							lit = sliceLit(st.Val)
+						}
+					}
+				}
+			}
+		}
+	}
+	if nStores != 1 || lit == nil {
+		return nil, false
+	}
+	els, ok := litElems(lit)
+	if !ok {
+		return nil, false
+	}
+	var out []ssa.Value
+	for _, e := range els {
+		b := e.structBase()
+		if b == nil {
+			return nil, false
+		}
+		out = append(out, b)
+	}
+	return out, true
 }
 
 // c20Gen is the analysed body of one GenerateFunc.
@@ -257,7 +359,7 @@ func (g *c20Gen) pathF(x fval) []string {
 	for i := 0; i < 16; i++ {
 		root, p := accessPathThroughCopies(unwrap(x.v))
 		path = append(append([]string{}, p...), path...)
-		r := g.F.resolve(fval{root, x.fr})
+		r := g.F.resolve(fval{v: root, fr: x.fr})
 		if r.v == root && r.fr == x.fr {
 			if r.v == g.obj && r.fr == g.fr && len(path) > 0 {
 				return path
@@ -296,7 +398,7 @@ func (g *c20Gen) valueF(p *Path, x fval) fval {
 			if _, isB := c.Call.Value.(*ssa.Builtin); !isB {
 				if fn2, fr2 := g.F.callFrame(c, y.fr); fn2 != nil && g.F.prog.IsRuleSite(fn2) {
 					if rv := singleReturn(fn2, 0); rv != nil {
-						y = fval{rv, fr2}
+						y = fval{v: rv, fr: fr2}
 					}
 				}
 			}
@@ -314,7 +416,7 @@ func (g *c20Gen) valueF(p *Path, x fval) fval {
 type c20Metric struct{ value, keys, values fval }
 
 func c20MetricOf(g *c20Gen, p *Path, ret *ssa.Return) (*c20Metric, string) {
-	x := fval{p.Resolve(ret.Results[0]), g.fr}
+	x := fval{v: p.Resolve(ret.Results[0]), fr: g.fr}
 	var builder *ssa.Function // helper in which the Family is built (nil: the generator itself)
 	for i := 0; i < 4; i++ {
 		call, isCall := unwrap(x.v).(*ssa.Call)
@@ -329,7 +431,7 @@ func c20MetricOf(g *c20Gen, p *Path, ret *ssa.Return) (*c20Metric, string) {
 		if rv == nil {
 			return nil, shortFunc(fn2) + " does not return one Family literal"
 		}
-		x, builder = fval{rv, fr2}, fn2
+		x, builder = fval{v: rv, fr: fr2}, fn2
 	}
 	fam, ok := unwrap(x.v).(*ssa.Alloc)
 	if !ok || typeName(fam.Type()) != c20PkgKSMetric+".Family" {
@@ -380,7 +482,7 @@ func c20MetricOf(g *c20Gen, p *Path, ret *ssa.Return) (*c20Metric, string) {
 			}
 		}
 	}
-	return &c20Metric{value: fval{sv.Val, x.fr}, keys: fval{sk.Val, x.fr}, values: fval{sl.Val, x.fr}}, ""
+	return &c20Metric{value: fval{v: sv.Val, fr: x.fr}, keys: fval{v: sk.Val, fr: x.fr}, values: fval{v: sl.Val, fr: x.fr}}, ""
 }
 
 // c20Atom is one defining fact of a derived family.
@@ -567,7 +669,7 @@ func c20Family1(r *Run, f c20Family, derived map[string]c20Derived, build, getLV
 			}
 		case special == "created":
 			if !dependsOn(val, func(x ssa.Value) bool {
-				pp := g.pathF(fval{x, valF.fr})
+				pp := g.pathF(fval{v: x, fr: valF.fr})
 				return len(pp) > 0 && pp[len(pp)-1] == "CreationTimestamp" || len(pp) > 1 && pp[len(pp)-2] == "CreationTimestamp"
 			}) {
 				valOK, valWhy = false, "Value does not derive from the object's CreationTimestamp"
@@ -575,31 +677,69 @@ func c20Family1(r *Run, f c20Family, derived map[string]c20Derived, build, getLV
 		case !inGen && !func() bool { z, isNum := constNum(val); return isNum && (z == 0 || z == 1) }():
 			valOK, valWhy = false, "undecided: the value of a derived family is computed outside the generator: "+val.String()
 		default:
-			allTrue, someFalse := true, false
-			var missing []string
-			for _, a := range der.atoms {
-				t := p.Has(a.pol, func(v ssa.Value, _ string) bool { return a.match(g, v) })
-				fl := p.Has(!a.pol, func(v ssa.Value, _ string) bool { return a.match(g, v) })
-				if !t {
-					allTrue = false
-					missing = append(missing, a.desc)
-				}
-				if fl {
-					someFalse = true
+			// the value, possibly as a 0/1 indicator of a boolean (a helper that returns 1 exactly for true):
+			// one case per outcome, each with the facts the outcome adds to the path
+			type vcase struct {
+				val   ssa.Value
+				extra []Fact
+			}
+			cases := []vcase{{val: val}}
+			if call, isCall := val.(*ssa.Call); isCall {
+				if bi, okI := c20Indicator(r, staticCallee(&call.Call)); okI {
+					bv := g.F.resolve(fval{v: call.Call.Args[bi], fr: valF.fr})
+					if bv.fr == g.fr {
+						b := p.Resolve(bv.v)
+						one := ssa.NewConst(constant.MakeInt64(1), types.Typ[types.Float64])
+						zero := ssa.NewConst(constant.MakeInt64(0), types.Typ[types.Float64])
+						if cb, isC := constBool(b); isC {
+							if cb {
+								cases = []vcase{{val: one}}
+							} else {
+								cases = []vcase{{val: zero}}
+							}
+						} else {
+							k := newKeyer(fn)
+							cases = []vcase{{val: one, extra: k.normCond(b, true)}, {val: zero, extra: k.normCond(b, false)}}
+						}
+					}
 				}
 			}
-			zero, isNum := constNum(val)
-			switch {
-			case der.on(g, val):
-				if !allTrue {
-					valOK, valWhy = false, fmt.Sprintf("Value is %s on a path that does not establish %s", der.onDesc, strings.Join(missing, " ∧ "))
+			for _, vc := range cases {
+				has := func(pol bool, a c20Atom) bool {
+					if p.Has(pol, func(v ssa.Value, _ string) bool { return a.match(g, v) }) {
+						return true
+					}
+					for _, f := range vc.extra {
+						if f.Pol == pol && a.match(g, f.V) {
+							return true
+						}
+					}
+					return false
 				}
-			case isNum && zero == 0:
-				if !someFalse {
-					valOK, valWhy = false, "Value is 0 on a path where no defining fact is false: ["+shortFacts(p)+"]"
+				allTrue, someFalse := true, false
+				var missing []string
+				for _, a := range der.atoms {
+					if !has(a.pol, a) {
+						allTrue = false
+						missing = append(missing, a.desc)
+					}
+					if has(!a.pol, a) {
+						someFalse = true
+					}
 				}
-			default:
-				valOK, valWhy = false, fmt.Sprintf("Value is %s, neither %s nor 0", c20Describe(g, val), der.onDesc)
+				zero, isNum := constNum(vc.val)
+				switch {
+				case der.on(g, vc.val):
+					if !allTrue {
+						valOK, valWhy = false, fmt.Sprintf("Value is %s on a path that does not establish %s", der.onDesc, strings.Join(missing, " ∧ "))
+					}
+				case isNum && zero == 0:
+					if !someFalse {
+						valOK, valWhy = false, "Value is 0 on a path where no defining fact is false: ["+shortFacts(p)+"]"
+					}
+				default:
+					valOK, valWhy = false, fmt.Sprintf("Value is %s, neither %s nor 0", c20Describe(g, vc.val), der.onDesc)
+				}
 			}
 		}
 		// R4: lock-step construction of keys and values
@@ -652,6 +792,42 @@ func c20DescribeF(g *c20Gen, x fval) string {
 	return x.v.String()
 }
 
+// c20Indicator recognises a repository function with one boolean parameter that returns the constant 1
+// exactly on the paths where the parameter is true and the constant 0 exactly where it is false.
+func c20Indicator(r *Run, fn *ssa.Function) (int, bool) {
+	if fn == nil || !r.Prog.IsRuleSite(fn) || len(fn.Blocks) == 0 || fn.Signature.Results().Len() != 1 {
+		return 0, false
+	}
+	bi := -1
+	for i, p := range fn.Params {
+		if bt, isB := p.Type().Underlying().(*types.Basic); isB && bt.Info()&types.IsBoolean != 0 {
+			if bi >= 0 {
+				return 0, false
+			}
+			bi = i
+		}
+	}
+	if bi < 0 {
+		return 0, false
+	}
+	paths, _, ok := funcPaths(fn, 200)
+	if !ok || len(paths) == 0 {
+		return 0, false
+	}
+	isB := func(v ssa.Value, _ string) bool { return v == ssa.Value(fn.Params[bi]) }
+	for _, p := range paths {
+		ret := returnOf(p.Blocks[len(p.Blocks)-1])
+		z, isNum := constNum(p.Resolve(ret.Results[0]))
+		switch {
+		case isNum && z == 1 && p.Has(true, isB):
+		case isNum && z == 0 && p.Has(false, isB):
+		default:
+			return 0, false
+		}
+	}
+	return bi, true
+}
+
 func c20Describe(g *c20Gen, v ssa.Value) string {
 	if p := g.path(v); p != nil {
 		return "obj." + strings.Join(p, ".")
@@ -702,14 +878,14 @@ func c20Seq(F *frames, top *frame, p *Path, x fval, depth int) ([]c20Elem, bool)
 		}
 	case *ssa.Call:
 		if _, ok := isBuiltinCall(y, "append"); ok {
-			a, ok1 := c20Seq(F, top, p, fval{y.Call.Args[0], x.fr}, depth+1)
+			a, ok1 := c20Seq(F, top, p, fval{v: y.Call.Args[0], fr: x.fr}, depth+1)
 			if !ok1 {
 				return nil, false
 			}
 			if len(y.Call.Args) < 2 {
 				return a, true
 			}
-			b, ok2 := c20Seq(F, top, p, fval{y.Call.Args[1], x.fr}, depth+1)
+			b, ok2 := c20Seq(F, top, p, fval{v: y.Call.Args[1], fr: x.fr}, depth+1)
 			if !ok2 {
 				return nil, false
 			}
@@ -744,7 +920,7 @@ func c20PairSeq(g *c20Gen, ks, vs []c20Elem, build, getLV *ssa.Function) string 
 		if cal != build && cal != getLV {
 			return fmt.Sprintf("segment %d comes from %s, which is not one of the verified pair functions", i, calleeName(&k.call.Call))
 		}
-		if len(k.call.Call.Args) != 1 || !samePath(g.pathF(fval{k.call.Call.Args[0], k.fr}), []string{"ObjectMeta"}) {
+		if len(k.call.Call.Args) != 1 || !samePath(g.pathF(fval{v: k.call.Call.Args[0], fr: k.fr}), []string{"ObjectMeta"}) {
 			return fmt.Sprintf("segment %d: %s is not called on the asserted object's ObjectMeta", i, shortFunc(cal))
 		}
 	}
